@@ -146,6 +146,15 @@ Example ex_empty_state_without_member_refused :
   = Err ENotInArchive.
 Proof. vm_compute. reflexivity. Qed.
 
+(* A lossy metadata codec (it stores byte 255 as 253, as encoding/json stores an invalid UTF-8 byte
+   as U+FFFD) satisfying every hypothesis of [roundtrip_lossy]: the archive of [255] verifies and
+   reads back as [253]. *)
+Definition lenc (m : iMeta) : bytes := ienc (map (fun x => if N.eqb x 255 then 253%N else x) m).
+Example ex_lossy_roundtrip :
+  read bytes_eqb iH imeta0 idec iparse iscan (write iH lenc iprint true [255]%N [7]%N) true
+  = Ok ([253]%N, [7]%N).
+Proof. vm_compute. reflexivity. Qed.
+
 (* The non-trivial branch of [tamper]: corrupted archives that ARE accepted, with the original
    extraction.  (1) an empty extra state.bin injected between the members; (2) a second
    SHA256SUMS with a valid line appended; (3) the members reordered. *)
